@@ -244,14 +244,18 @@ func allChecks() []*Check {
 			ID: "C01", Title: "Well-formed IRC messages parse to exactly the components that were sent",
 			Harnesses: []Harness{
 				{Pkg: "client", Func: "VerifC01Plain", Quick: map[string]int{"T": 1, "KL": 1, "VL": 2, "SL": 1, "VBL": 2, "M": 2, "ML": 2, "TL": 2},
-					Thorough: map[string]int{"T": 2, "KL": 2, "VL": 3, "SL": 2, "VBL": 3, "M": 3, "ML": 2, "TL": 4}},
+					Thorough: map[string]int{"T": 1, "KL": 1, "VL": 3, "SL": 2, "VBL": 3, "M": 3, "ML": 2, "TL": 3}, Asserts: []string{"cmd", "arg", "args-count", "tag-value", "src-nick", "text", "target", "public", "raw"}},
+				{Pkg: "client", Func: "VerifC01Plain", Quick: map[string]int{"T": 2, "KL": 1, "VL": 1, "SL": 1, "VBL": 1, "M": 0, "TL": 0},
+					Thorough: map[string]int{"T": 2, "KL": 2, "VL": 3, "SL": 1, "VBL": 1, "M": 1, "ML": 1, "TL": 1}, Asserts: []string{"tag-value", "tags-count"}, Note: "two tags"},
+				{Pkg: "client", Func: "VerifC01Plain", Quick: map[string]int{"T": 0, "SL": 1, "VBL": 1, "M14": 1, "TL": 1},
+					Thorough: map[string]int{"T": 1, "KL": 1, "VL": 1, "SL": 1, "VBL": 2, "M14": 1, "TL": 2}, Asserts: []string{"args-count", "arg"}, Note: "13-14 middle parameters"},
 				{Pkg: "client", Func: "VerifC01Ctcp", Quick: map[string]int{"T": 1, "KL": 1, "VL": 1, "SL": 1, "ML": 2, "CL": 2, "TL": 2},
 					Thorough: map[string]int{"T": 1, "KL": 2, "VL": 2, "SL": 2, "ML": 2, "CL": 3, "TL": 4}},
 				{Pkg: "client", Func: "VerifC01Deliver", Quick: map[string]int{"T": 1, "KL": 1, "VL": 1, "SL": 1, "VBL": 2, "TL": 1},
 					Thorough: map[string]int{"T": 1, "KL": 1, "VL": 2, "SL": 2, "VBL": 3, "TL": 3}, Asserts: []string{"delivered-equal", "next-line-delivered"}},
 				{Pkg: "client", Func: "VerifC01Deliver", Quick: map[string]int{"LONG": 1, "VBL": 1, "TL": 1}, Thorough: map[string]int{"LONG": 1, "VBL": 2, "TL": 2}, Asserts: []string{"delivered-equal", "next-line-delivered"}, Note: "long"},
 			},
-			Bounds:      map[string]string{"quick": "<=1 tag (key 1 B, value <=2 B), source parts 1 B, verb <=2 letters or 3 digits, <=2 middles of <=2 B with 1-2 spaces, trailing <=2 B; CTCP: verb <=2 B or ACTION, text <=2 B", "thorough": "<=2 tags (key <=2 B, value <=3 B), source parts <=2 B, verb <=3 letters or 3 digits, <=3 middles, trailing <=4 B; CTCP verb <=3 B, text <=4 B"},
+			Bounds:      map[string]string{"quick": "<=1 tag (key 1 B, value <=2 B), source parts 1 B, verb <=2 letters or 3 digits, <=2 middles of <=2 B with 1-2 spaces, trailing <=2 B; two tags (keys 1 B, values <=1 B) with a minimal rest; 13-14 middle parameters of 1 B; CTCP: verb <=2 B or ACTION, text <=2 B; delivery through recv incl. a 4200-byte line", "thorough": "1 tag with value <=3 B, source parts <=2 B, verb <=3 letters, <=3 middles, trailing <=3 B; two tags with values <=3 B; 13-14 middles with a tag; CTCP verb <=3 B, text <=4 B"},
 			Outside:     []string{"bytes >= 0x80", "larger components", "what the property itself excludes (other white space, several spaces before the verb, CTCP without text, invalid escapes)"},
 			Stubs:       []string{"strings.* models (ASCII)"},
 			QuickBudget: 4 * time.Minute, ThorBudget: 40 * time.Minute,
